@@ -6,14 +6,35 @@ _F = "c14_framing"
 _R = "c14_rpc"
 
 # Coverage-guided leg (thorough tier): one case = one bounded libFuzzer session over the three decoders, see harness/c14_fuzz.cpp.
-# It needs the `fuzz` flavour of the library; lib/vbuild.py cannot build that flavour at present (clang-14 rejects
-# modules/util/variables.h, pulled in by modules/main/*.cpp - same limitation as C19), so the leg is opt-in:
-# VERIF_C14_FUZZ=1 bin/check C14 --tier thorough.  The harness was validated with a direct clang-14 build of the ten translation
-# units it needs (findings/c14.md (a)): it reports totality/header/exception-escaped in every session on the unchanged tree.
-_FUZZ = os.environ.get("VERIF_C14_FUZZ") == "1"
+# It needs the `fuzz` flavour of the library (clang-14; builds since lib/vbuild.py force-includes json.hpp). VERIF_C14_FUZZ=0 leaves it out.
+_FUZZ = os.environ.get("VERIF_C14_FUZZ", "1") != "0"
 _FUZZ_LEG = [dict(name="fuzz", harness="c14_fuzz", flavour="fuzz", mode="fuzz", args=["--runs", "100000", "--maxlen", "256"],
                   quick=0, thorough=30, case_timeout=900)] if _FUZZ else []
 _FUZZ_H = {"c14_fuzz": dict(sources=["harness/c14_fuzz.cpp"], ldflags=["-fsanitize=fuzzer"])} if _FUZZ else {}
+
+_RC = [
+        # framing mechanisms
+        "stream_header", "stream_raw", "roundtrip_header", "roundtrip_raw", "roundtrip_packet", "pieces_batch", "pieces_handmade",
+        "seg_bytewise", "seg_random", "seg_two_way_positions", "streams_cut_at_every_position", "header_cut_inside_magic_or_length",
+        "header_ret_zero_incomplete", "raw_ret_zero_incomplete", "raw_cut_inside_string", "raw_cut_before_bracket_inside_string",
+        "raw_cut_before_escaped_quote", "raw_cut_right_after_backslash_in_string", "streams_with_string_ending_in_backslash",
+        "streams_with_utf8", "streams_with_a_frame_longer_than_65535_bytes", "raw_whitespace_between_messages",
+        # totality
+        "header_length_within_6_of_2pow32", "header_length_near_2pow31", "header_length_0_1_2", "header_length_larger_than_available",
+        "hostile_wrong-magic", "hostile_truncated", "hostile_corrupted-bytes", "hostile_bracket-quote-backslash", "hostile_random-bytes",
+        "hostile_nested", "hostile_valid-json-not-rpc", "complete_frame_invalid_json_header", "complete_frame_invalid_json_raw",
+        "complete_frame_invalid_json_packet", "header_malformed_reported", "raw_malformed_reported", "packet_malformed_reported",
+        "header_incomplete_waits", "raw_incomplete_waits", "hostile_segmentations", "deepnest_child_returned",
+        # rpc
+        "requests_issued", "completed_by_response", "completed_by_timeout", "duplicate_response_queued", "late_response_after_timeout_queued",
+        "unknown_id_response_queued", "wrong_type_or_out_of_range_id_response_queued", "out_of_int_range_id_response_queued",
+        "batch_of_responses_queued", "response_fed_from_inside_send_callback", "requests_issued_from_inside_a_callback",
+        "response_accepted_within_last_second_before_deadline", "frame_delivered_in_pieces", "incoming_request_with_colliding_id_queued",
+        "frames_lost_in_transit", "async_answered_twice", "late_or_duplicate_response_delivered", "responder_frames_checked",
+        "requests_checked_exactly_once", "rpc_over_header", "rpc_over_raw", "rpc_over_packet", "pair_over_header", "pair_over_raw", "pair_over_packet",
+    ]
+_RC_FUZZ = ["fuzz_execs_header", "fuzz_execs_raw", "fuzz_execs_packet", "fuzz_decoded_messages_header", "fuzz_decoded_messages_raw",
+            "fuzz_segment_checks", "fuzz_negative_returns_header", "fuzz_negative_returns_raw"] if _FUZZ else []
 
 PROP = dict(
     harnesses=dict({_F: dict(sources=["harness/c14_framing.cpp"]), _R: dict(sources=["harness/c14_rpc.cpp"])}, **_FUZZ_H),
@@ -65,8 +86,8 @@ PROP = dict(
         "a response matches a request only if its id is a JSON integer equal to the id the Rpc put on the wire; string, fractional, null and out-of-int-range ids are unknown ids",
         "histories do not call Rpc::cleanup() with requests pending and callbacks do not destroy the Rpc; ids never wrap (fewer than 2^31 requests)",
         "deep nesting is judged on the plain build on an 8 MiB thread stack (the Linux default); receiver callbacks take the Json by reference and do not copy it",
-        "the libFuzzer leg planned in DESIGN (harness/c14_fuzz.cpp) is opt-in (VERIF_C14_FUZZ=1, thorough tier): lib/vbuild.py cannot build the fuzz flavour of the "
-        "whole library at present; without it the 3 M generated inputs of the hostile leg are the thorough tier's reach into the decoders",
+        "the libFuzzer leg (thorough tier, 30 sessions x 100 000 runs, seeded with 14 well-formed frames) has no reference: it only demands no exception, return <= size "
+        "and segmented == unsegmented decoding; VERIF_C14_FUZZ=0 leaves it out",
     ],
     technique=("runtime monitoring: the real framings, Rpc, TimeoutMonitor and Loop run on generated streams and histories under ASan+UBSan (virtual monotonic clock); "
                "decoded callbacks are compared with the generator's message list and with the unsegmented decode, completion callbacks with a lock-step "
@@ -78,25 +99,5 @@ PROP = dict(
                 "delivered first or with the timeout error inside the 1 s ring window. Held on the cases explored, not a proof."),
     level_note=("trusts nlohmann::json (parse/accept/dump) as the definition of JSON text and value equality, gcc ASan/UBSan, the virtual-clock hook, and the harness's own "
                 "frame encoder and id -> request model"),
-    required_counters={"all": [
-        # framing mechanisms
-        "stream_header", "stream_raw", "roundtrip_header", "roundtrip_raw", "roundtrip_packet", "pieces_batch", "pieces_handmade",
-        "seg_bytewise", "seg_random", "seg_two_way_positions", "streams_cut_at_every_position", "header_cut_inside_magic_or_length",
-        "header_ret_zero_incomplete", "raw_ret_zero_incomplete", "raw_cut_inside_string", "raw_cut_before_bracket_inside_string",
-        "raw_cut_before_escaped_quote", "raw_cut_right_after_backslash_in_string", "streams_with_string_ending_in_backslash",
-        "streams_with_utf8", "streams_with_a_frame_longer_than_65535_bytes", "raw_whitespace_between_messages",
-        # totality
-        "header_length_within_6_of_2pow32", "header_length_near_2pow31", "header_length_0_1_2", "header_length_larger_than_available",
-        "hostile_wrong-magic", "hostile_truncated", "hostile_corrupted-bytes", "hostile_bracket-quote-backslash", "hostile_random-bytes",
-        "hostile_nested", "hostile_valid-json-not-rpc", "complete_frame_invalid_json_header", "complete_frame_invalid_json_raw",
-        "complete_frame_invalid_json_packet", "header_malformed_reported", "raw_malformed_reported", "packet_malformed_reported",
-        "header_incomplete_waits", "raw_incomplete_waits", "hostile_segmentations", "deepnest_child_returned",
-        # rpc
-        "requests_issued", "completed_by_response", "completed_by_timeout", "duplicate_response_queued", "late_response_after_timeout_queued",
-        "unknown_id_response_queued", "wrong_type_or_out_of_range_id_response_queued", "out_of_int_range_id_response_queued",
-        "batch_of_responses_queued", "response_fed_from_inside_send_callback", "requests_issued_from_inside_a_callback",
-        "response_accepted_within_last_second_before_deadline", "frame_delivered_in_pieces", "incoming_request_with_colliding_id_queued",
-        "frames_lost_in_transit", "async_answered_twice", "late_or_duplicate_response_delivered", "responder_frames_checked",
-        "requests_checked_exactly_once", "rpc_over_header", "rpc_over_raw", "rpc_over_packet", "pair_over_header", "pair_over_raw", "pair_over_packet",
-    ]},
+    required_counters={"quick": _RC, "thorough": _RC + _RC_FUZZ},
 )
